@@ -2018,6 +2018,12 @@ class SSHConnection(SSHPacketHandler, asyncio.Protocol):
 
         self._kex_complete = True
 
+        if self._rekey_seconds:
+            # Measure the rekey interval from the end of this exchange, so
+            # an exchange which takes longer than the interval doesn't
+            # trigger another one (and defer all other traffic) forever
+            self._rekey_time = time.monotonic() + self._rekey_seconds
+
         if first_kex:
             if self.is_client():
                 self.send_service_request(_USERAUTH_SERVICE)
